@@ -309,6 +309,18 @@ example : loadFrom (fsOf exDottedLay) [] true [[], ['w', 's'], "proj".toList, "d
     loadFrom (fsOf exDottedLay) [] true [[], ['w', 's']] "a.b".toList =
     .ok ⟨[['w', 's'], "a.b".toList, initPy], [['w', 's'], "a.b".toList], [['w', 's']]⟩ := by decide
 
+/-- …and so is the name `__init__` itself: `inv -c __init__` finds the plain MODULE `/ws/proj/__init__.py`
+    (`pyFile "__init__" = initPy`); it is a module, so the project directory is `/ws/proj` - the file NAME does not
+    make it a package; the package of that name would be `/ws/proj/__init__/__init__.py` -/
+example : pyFile "__init__".toList = initPy ∧
+    loadFrom (fsOf [([], [['w', 's']]), ([['w', 's']], ["proj".toList]), ([['w', 's'], "proj".toList], [initPy, "deep".toList]),
+                    ([['w', 's'], "proj".toList, "deep".toList], [])])
+      [] true [[], ['w', 's'], "proj".toList, "deep".toList] "__init__".toList =
+    .ok ⟨[['w', 's'], "proj".toList, initPy], [['w', 's'], "proj".toList], [['w', 's'], "proj".toList]⟩ ∧
+    loadFrom (fsOf [([], [['w', 's']]), ([['w', 's']], ["__init__".toList]), ([['w', 's'], "__init__".toList], [initPy])])
+      [] true [[], ['w', 's']] "__init__".toList =
+    .ok ⟨[['w', 's'], "__init__".toList, initPy], [['w', 's'], "__init__".toList], [['w', 's']]⟩ := by decide
+
 /-- a candidate that sits in the filesystem root: `/mycoll/__init__.py`, start `/p/q` -/
 def exRootLay : Layout :=
   [([], [['p'], "mycoll".toList]), (["mycoll".toList], [initPy]), ([['p']], [['q']]), ([['p'], ['q']], [])]
